@@ -20,13 +20,13 @@ Rec == TraceLog[l]
 IsEv(e) == l <= NT /\ Rec.ev = e
 ASSUME TLCSet(1, 1)
 
-TraceInit == /\ l = 1 /\ n = 1 /\ auth = "digest" /\ fault = NoFault /\ cli = TRUE /\ pc = "done" /\ cur = 0 /\ reqLog = <<>>
+TraceInit == /\ l = 1 /\ n = 1 /\ auth = "digest" /\ fault = NoFault /\ cli = TRUE /\ keyOk = TRUE /\ pc = "done" /\ cur = 0 /\ reqLog = <<>>
              /\ tmp = {} /\ reg = <<>> /\ outs = {} /\ touched = {} /\ retried = FALSE /\ exit = 1
 
 TraceStart ==
   /\ IsEv("Init") /\ pc = "done"
-  /\ n' = Rec.n /\ auth' = Rec.auth /\ fault' = Rec.fault /\ cli' = Rec.cli
-  /\ pc' = "send" /\ cur' = 0 /\ reqLog' = <<>> /\ tmp' = {} /\ reg' = <<>> /\ outs' = {} /\ touched' = {} /\ retried' = FALSE /\ exit' = -1
+  /\ n' = Rec.n /\ auth' = Rec.auth /\ fault' = Rec.fault /\ cli' = Rec.cli /\ keyOk' = Rec.keyOk
+  /\ pc' = (IF Rec.keyOk THEN "send" ELSE "keyfail") /\ cur' = 0 /\ reqLog' = <<>> /\ tmp' = {} /\ reg' = <<>> /\ outs' = {} /\ touched' = {} /\ retried' = FALSE /\ exit' = -1
   /\ l' = l + 1
 
 Silent == /\ (Response \/ CopyBody \/ Downloaded \/ CreateOut \/ RedactFile) /\ UNCHANGED l
@@ -39,7 +39,7 @@ TraceReq ==
 
 TraceEnd ==
   /\ IsEv("End") /\ l' = l + 1
-  /\ (DownloadFail \/ CleanupFail \/ CleanupOk \/ (Downloaded /\ ~cli))
+  /\ (KeyFail \/ DownloadFail \/ CleanupFail \/ CleanupOk \/ (Downloaded /\ ~cli))
   /\ pc' = "done" /\ exit' = Rec.exit /\ Cardinality(tmp') = Rec.tmp
   /\ Cardinality(outs') = Rec.outs
 
